@@ -475,6 +475,10 @@ func (vp baseStuckVoteproof) isValid(networkID []byte, ovp baseVoteproof) error 
 		return util.ErrInvalid.Errorf("empty expels")
 	}
 
+	if ovp.majority != nil {
+		return util.ErrInvalid.Errorf("not empty majority for stuck voteproof")
+	}
+
 	return isValidithdrawVoteproof(networkID, vp.expels, ovp)
 }
 
